@@ -185,4 +185,12 @@ def run(repo, tier):
     res.exhaustive_rules = ['LP1/LP1b over every loop of the centroid modules']
     from .common import run_round
     run_round(repo, res, MODS)
+    from .common import run_scale_free, apply_specs
+    run_scale_free(repo, res, MODS)
+    apply_specs(repo, res, [
+        ('photutils.centroids.gaussian.centroid_1dg', 'test', 'np.any(data.mask)',
+         'rows/columns that are fully masked for ANY reason (input mask, non-finite data or error, MaskedArray input) get zero weight'),
+        ('photutils.centroids.core.centroid_quadratic', 'test', 'det <= 0 or ((c20 > 0.0 and c02 >= 0.0) or (c20 >= 0.0 and c02 > 0.0))',
+         'no maximum iff the Hessian determinant is <= 0 or the curvature is non-negative (exact comparison: scale-free)'),
+    ])
     return res
